@@ -273,6 +273,9 @@ def trailing_zeros(I, st, fr, t, a):
         if len(cands) == 1 and (nz is True or first_one is not None):
             return BV.const(cands[0], 32), st
         lo = cands[0] if cands else v.w
+        if first_one is not None and first_one == lo:
+            # the lowest possibly-set bit is certainly set
+            return BV.const(lo, 32), st
         if first_one is not None:
             hi = first_one
         elif nz is True:
@@ -812,8 +815,12 @@ PREFIX.append(('std::char::', opaque))
 
 
 # ------------------------------------------------------------------ checked summaries of local helpers
+LOCAL_USED = set()
+
+
 @local_summary('action::map_bit_board_to_squares')
 def map_bit_board_to_squares(I, st, fr, t, a):
+    LOCAL_USED.add('action::map_bit_board_to_squares')
     bv = a[0]
     if not isinstance(bv, BV):
         raise from_undecided()('map_bit_board_to_squares of %r' % (bv,))
@@ -1574,6 +1581,11 @@ def leading_zeros(I, st, fr, t, a):
     if isinstance(v, BV) and v.known():
         x = v.uval()
         return BV.const(v.w - x.bit_length(), 32), st
+    if isinstance(v, BV):
+        top = next((i for i in range(v.w - 1, -1, -1) if v.bits[i] is not C0), None)
+        if top is not None and v.bits[top] is C1:
+            # the highest possibly-set bit is certainly set
+            return BV.const(v.w - 1 - top, 32), st
     return Term('lz', (v,), 32, 0, getattr(v, 'w', 64)), st
 
 
